@@ -11,7 +11,9 @@ ASSUMES = ['runs that complete; a run that dies midway leaves partially written 
            'reading taken: "targeted files" are the paths the configuration of the run maps to; stale files of other group names in a shared output_dir are reported as an observation']
 EX = mapcase.EX
 OUTS = [('file', 'kg'), ('file', 'kg'), ('file', 'out/kg'), ('file', 'deep/a/b/kg.nt'), ('file', 'kg.tar.gz'), ('file', 'kg.nq'), ('dir', 'outd'), ('dir', 'outd'), ('dir', 'deep/od'),
-        ('file', ''), ('both', 'outd')]
+        ('file', ''), ('both', 'outd'),
+        # names that mean something to glob / fnmatch / the shell but are plain characters in a path
+        ('dir', 'res [2024]'), ('dir', 'run[1]/kg'), ('dir', 'o?d'), ('file', 'k[g].nt'), ('dir', 'sp ace'), ('file', 'a b/kg')]
 
 
 def gen_history(rng, n):
@@ -69,6 +71,17 @@ def run(ctx, res):
                 'distinct = distinct history; non-trivial = history of at least two runs sharing a target')
     wd = common.workdir()
     hists = [gen_history(ctx.rng, ctx.rng.choice([1, 2, 3, 3, 4])) for _ in range(ctx.scale(24, 400))]
+    # directed: every kind of target name visited twice, the second time by a run that writes fewer groups / fewer statements
+    for out in OUTS[-6:] + [('file', 'kg'), ('dir', 'outd'), ('file', 'deep/a/b/kg.nt')]:
+        for _ in range(ctx.scale(1, 4)):
+            a = mapcase.gen_core_case(ctx.rng, hard=False, joins=False)
+            while sum(len(t.get('poms', [])) + len(t.get('classes', [])) for t in a['doc']) < 3 or not any(s_['rows'] for s_ in a['sources']):
+                a = mapcase.gen_core_case(ctx.rng, hard=False, joins=False)
+            a['cfg']['mode'] = ctx.rng.choice(['PARTIAL-AGGREGATIONS', 'MAXIMAL']); a['cfg']['nquads'] = ctx.rng.random() < 0.5
+            b = json.loads(json.dumps(a))
+            for s_ in b['sources']:
+                s_['rows'] = s_['rows'][:max(0, len(s_['rows']) - 2)]
+            hists.append([{'case': a, 'out': out}, {'case': b, 'out': out}])
     jobs, dirs = [], []
     pre = {'kg.nt': '<http://old/s> <http://old/p> "left over" .\n', 'outd/0-0-0-0.nt': '<http://old/s> <http://old/p> "left over group" .\n',
            'outd/1-1-1-1.nt': '<http://old/s> <http://old/p> "stale" .\n', 'out/kg.nq': '<http://old/s> <http://old/p> "old quad" <http://old/g> .\n'}
